@@ -432,7 +432,7 @@ func Follow(c *Ctx) error {
 			t2 = append(t2, dr("end"), fl("end/file"))
 			fixed = append(fixed, followCase{Tree: t2, Reqs: []string{"c00/file"}})
 		}
-		// link targets in which ".." follows a component that is itself a symlink (the recorded lexical-dot-dot finding):
+		// link targets in which ".." follows a component that is itself a symlink (a defect repaired in the tree, kept as regression cases):
 		// m -> d/l/../f with d/l -> /e/sub really ends at e/f; a -> a/../b is a cycle
 		fixed = append(fixed,
 			followCase{Tree: model.Tree{dr("d"), ln("d/l", "/e/sub"), dr("e"), dr("e/sub"), fl("e/f"), ln("m", "d/l/../f")}, Reqs: []string{"m"}},
